@@ -6,7 +6,7 @@ import Optyx.Drive.Jac
 def dispatchJac (line : String) : String :=
   match Optyx.Sexp.parseLine line with
   | some (.atom cmd :: args) =>
-    match [Optyx.Drive.handleCore, Optyx.Drive.handleJac].findSome? (fun h => h cmd args) with
+    match [Optyx.Drive.handleCore, Optyx.Drive.JacNs.handleJac].findSome? (fun h => h cmd args) with
     | some out => out
     | none => "bad-op"
   | _ => "bad-line"
